@@ -74,7 +74,7 @@ func getFx() *fixtures {
 	f := &fixtures{cp: cp, h: h, tssAcc: world.NewAccount("tss-account"), relayer: world.NewAccount("relayer")}
 	root, prf, val := c08.Fixture()
 	f.evmRoot, f.evmPrf, f.evmVal = root.Bytes(), prf, val
-	tmHeights := [2]int64{5, 6}
+	tmHeights := [2]int64{5, 8}
 	f.kits = map[string]kit{}
 	f.kits["tm"] = kit{
 		install: func(v int) (exported.ClientState, exported.ConsensusState) {
@@ -200,18 +200,38 @@ type sys struct {
 	typ   string // current client type ("" = none)
 	inst  int    // variant installed
 	waits int    // number of "wait" operations so far (bounded)
+	other string // digest of the bystander client\'s store
 }
 
 func New(b Bounds) bfs.System {
 	f := getFx()
 	s := &sys{f: f}
 	// a moment at which every tendermint header of the fixture is in the past and nothing is expired
-	s.now = f.cp.TimeOf(7).Add(time.Second)
+	s.now = f.cp.TimeOf(9).Add(time.Second)
 	s.ctx = f.h.Ctx(s.now)
 	k := f.h.C.App.XIBCKeeper.ClientKeeper
 	k.RegisterRelayers(s.ctx, f.relayer.Acc.String(), []string{Name}, []string{"x"})
 	k.RegisterRelayers(s.ctx, f.tssAcc.Acc.String(), []string{Name}, []string{"y"})
+	// a bystander: another chain's client whose name merely starts with the same characters; nothing done to cp-chain may touch it
+	ocs, ocons := f.kits["tm"].install(0)
+	if err := k.CreateClient(s.ctx, Name+"-2", ocs, ocons); err != nil {
+		panic(err)
+	}
+	s.other = s.dumpOther()
 	return s
+}
+
+const otherName = Name + "-2"
+
+func (s *sys) dumpOther() string {
+	st := s.f.h.C.App.XIBCKeeper.ClientKeeper.ClientStore(s.ctx, otherName)
+	it := st.Iterator(nil, nil)
+	defer it.Close()
+	var ks []string
+	for ; it.Valid(); it.Next() {
+		ks = append(ks, fmt.Sprintf("%x=%x", it.Key(), it.Value()))
+	}
+	return fmt.Sprintf("%x", world.DigestStrings(ks))
 }
 
 func (s *sys) Clone() bfs.System {
@@ -225,7 +245,7 @@ func (s *sys) Ops() []string {
 	for _, t := range types {
 		out = append(out, "create "+t, "create-wrong-consensus "+t, "upgrade "+t, "toggle "+t)
 	}
-	out = append(out, "create-bad-name tm", "upgrade-bsc-off-epoch", "update", "update-outsider")
+	out = append(out, "create-bad-name tm", "upgrade-bsc-off-epoch", "update", "update-outsider", "update-backfill")
 	if s.waits < 2 {
 		out = append(out, "wait") // the local clock passes the delay period (an install at an already tracked height must restart the delay)
 	}
@@ -257,6 +277,15 @@ func otherType(t string) string {
 }
 
 func (s *sys) Apply(op string) (obs, class string, viols []bfs.Viol) {
+	obs, class, viols = s.apply(op)
+	if d := s.dumpOther(); d != s.other {
+		viols = append(viols, bfs.Viol{Sig: "C18:lifecycle-action-touched-another-client", Detail: fmt.Sprintf("%s (on %q) changed the store of client %q", op, Name, otherName)})
+		s.other = d
+	}
+	return
+}
+
+func (s *sys) apply(op string) (obs, class string, viols []bfs.Viol) {
 	add := func(sig, d string) { viols = append(viols, bfs.Viol{Sig: "C18:" + sig, Detail: d}) }
 	f := strings.Fields(op)
 	k := s.f.h.C.App.XIBCKeeper.ClientKeeper
@@ -376,6 +405,52 @@ func (s *sys) Apply(op string) (obs, class string, viols []bfs.Viol) {
 		// (d) an update with a valid header from the authorised account succeeds
 		s.probeUpdate(op, f[0], t, add)
 		return "ok", class, viols
+	case "update-backfill":
+		// tendermint only: a valid header for a height below the latest one (skipped by an upgrade), trusting an older stored height
+		if s.typ != "tm" {
+			return "n/a", "back-fill: not a tendermint client", nil
+		}
+		cs, _ := k.GetClientState(s.ctx, Name)
+		latest := cs.GetLatestHeight().GetRevisionHeight()
+		stored := map[uint64]bool{}
+		k.IterateConsensusStates(s.ctx, func(name string, c clienttypes.ConsensusStateWithHeight) bool {
+			if name == Name {
+				stored[c.Height.RevisionHeight] = true
+			}
+			return false
+		})
+		h, trusted := latest-1, uint64(0)
+		for t := h - 1; t >= 2; t-- {
+			if stored[t] {
+				trusted = t
+				break
+			}
+		}
+		if stored[h] || trusted == 0 || h < 2 {
+			return "no header", "back-fill: no skipped height with an older trusted height", nil
+		}
+		pre := s.verify(c07.Fork(s.ctx, s.now), "tm", s.inst)
+		if err := s.msgUpdate(s.ctx, s.f.cp.Header(int64(h), trusted), s.f.relayer, true); err != nil {
+			add("valid-update-from-authorised-account-failed/tm-backfill", fmt.Sprintf("back-fill of %d trusting %d: %v", h, trusted, err))
+			if d := world.DiffStores(before, s.dump(s.ctx)); len(d) > 0 {
+				add("failed-update-changed-client", fmt.Sprintf("%s: %v", op, d))
+			}
+			return "failed", "back-fill failed", viols
+		}
+		// the installed height is not disturbed: a proof that was honoured before the back-fill still is
+		if post := s.verify(c07.Fork(s.ctx, s.now), "tm", s.inst); pre == nil && post != nil {
+			add("proof-at-installed-height-refused-after-back-fill", fmt.Sprintf("back-fill of %d trusting %d: %v", h, trusted, post))
+		}
+		// and the back-filled height becomes provable once its own delay has passed
+		if int64(h)-1 >= s.f.cp.CommitAt() {
+			later := c07.Fork(s.ctx, s.now).WithBlockTime(s.now.Add(11 * time.Second))
+			proof, val := s.f.cp.Proof(int64(h))
+			cs2, _ := k.GetClientState(later, Name)
+			if err := cs2.VerifyPacketCommitment(later, k.ClientStore(later, Name), s.f.h.C.App.AppCodec(), clienttypes.NewHeight(1, h), proof, "cp-1", "teleport_9000-10", 1, val); err != nil {
+				add("genuine-proof-at-back-filled-height-refused-after-the-delay", fmt.Sprintf("back-fill of %d: %v", h, err))
+			}
+		}
+		return "ok", "back-fill of a tendermint client succeeded", viols
 	case "wait":
 		s.waits++
 		s.now = s.now.Add(20 * time.Second)
